@@ -1202,9 +1202,9 @@ void eval_instruction (const char *p) {
                       break;
                     case T_STRING:
                       {
-                        char buff[40];
+                        char buff[352];	/* "%lf" of DBL_MAX takes 317 characters */
 
-                        sprintf (buff, "%lf", (sp + 1)->u.real);
+                        snprintf (buff, sizeof buff, "%lf", (sp + 1)->u.real);
                         EXTEND_SVALUE_STRING (sp, buff, "f_add: 2");
                         break;
                       }
@@ -1256,9 +1256,9 @@ void eval_instruction (const char *p) {
                       }		/* end of T_NUMBER + T_STRING */
                     case T_REAL:
                       {
-                        char buff[40];
+                        char buff[352];	/* "%lf" of DBL_MAX takes 317 characters */
 
-                        sprintf (buff, "%lf", (sp - 1)->u.real);
+                        snprintf (buff, sizeof buff, "%lf", (sp - 1)->u.real);
                         SVALUE_STRING_ADD_LEFT (buff, "f_add: 3");
                         break;
                       }		/* end of T_REAL + T_STRING */
@@ -1301,9 +1301,9 @@ void eval_instruction (const char *p) {
                 }
               else if (sp->type == T_REAL)
                 {
-                  char buff[40];
+                  char buff[352];	/* "%lf" of DBL_MAX takes 317 characters */
 
-                  sprintf (buff, "%lf", sp->u.real);
+                  snprintf (buff, sizeof buff, "%lf", sp->u.real);
                   EXTEND_SVALUE_STRING (lval, buff, "f_add_eq: 2");
                 }
               else
